@@ -164,6 +164,9 @@ pub enum St {
     Free { op: usize, n: usize },
     /// two independent processes
     Processes { op: usize },
+    /// free running: `n` calls of a cheap operation on 8 threads - with full entropy no two results coincide, with 32 (40)
+    /// bits of entropy about n^2 / 2^33 (2^41) pairs do
+    Birthday { op: usize, n: usize },
 }
 
 pub struct M20<C: Suite> {
@@ -206,6 +209,9 @@ impl<C: Suite> Model for M20<C> {
             v.push(St::Free { op, n });
             v.push(St::Processes { op });
         }
+        for op in [0usize, 8] {
+            v.push(St::Birthday { op, n: if self.tier.thorough() { 4_000_000 } else { 400_000 } });
+        }
         v
     }
     fn actions(&self, st: &St) -> Vec<usize> {
@@ -229,6 +235,7 @@ impl<C: Suite> Model for M20<C> {
             St::History(h) => format!("{} history [{}] with identical arguments; entropy seam answers with distinct seeds", C::G, h.iter().map(|o| OPS[*o]).collect::<Vec<_>>().join(", ")),
             St::Free { op, n } => format!("{} free running (real entropy, not an enumeration): {} calls of {} on 4 threads", C::G, n, OPS[*op]),
             St::Processes { op } => format!("{} free running: {} in two independent processes", C::G, OPS[*op]),
+            St::Birthday { op, n } => format!("{} free running (a sample): {} calls of {} on 8 threads, all results distinct", C::G, n, OPS[*op]),
         }
     }
     fn required_outcomes(&self) -> Vec<String> {
@@ -287,6 +294,29 @@ impl<C: Suite> Model for M20<C> {
                 if a.1.iter().any(|d| *d == 0) {
                     o.note(format!("a call of history {:?} drew no entropy through the seam", h));
                 }
+            }
+            St::Birthday { op, n } => {
+                o.nontrivial = true;
+                let per = n / 8;
+                let results: Vec<Vec<[u8; 32]>> = std::thread::scope(|sc| {
+                    let hs: Vec<_> = (0..8)
+                        .map(|_| {
+                            sc.spawn(move || {
+                                (0..per)
+                                    .map(|_| if *op == 0 { SecretKey::<C>::new().to_be_bytes() } else { ProofCommitmentChallenge::<C>::new().to_be_bytes() })
+                                    .collect::<Vec<_>>()
+                            })
+                        })
+                        .collect();
+                    hs.into_iter().map(|h| h.join().unwrap_or_default()).collect()
+                });
+                o.calls(*n as u64);
+                let mut all: Vec<[u8; 32]> = results.into_iter().flatten().collect();
+                let total = all.len();
+                all.sort_unstable();
+                let repeats = all.windows(2).filter(|w| w[0] == w[1]).count();
+                o.outcome(if repeats == 0 && total == per * 8 { "birthday:all-distinct" } else { "birthday:repeats" });
+                o.expect(&format!("C20:birthday:{}:{}", g, OPS[*op]), repeats == 0 && total == per * 8, "no two equal results", &format!("{} equal pairs among {} results", repeats, total));
             }
             St::Free { op, n } => {
                 o.nontrivial = true;
